@@ -389,9 +389,21 @@ def load_known():
     return json.load(open(p))["findings"]
 
 
+def _no_nulls(o):
+    """TLC's Json module cannot read null: an absent value becomes the empty sequence (which equals no logged value,
+    so the trace specs see a mismatch instead of TLC failing)"""
+    if o is None:
+        return []
+    if isinstance(o, dict):
+        return {k: _no_nulls(v) for k, v in o.items()}
+    if isinstance(o, (list, tuple)):
+        return [_no_nulls(v) for v in o]
+    return o
+
+
 def write_json(path, obj):
     with open(path, "w") as f:
-        json.dump(obj, f, separators=(",", ":"))
+        json.dump(_no_nulls(obj), f, separators=(",", ":"))
     return path
 
 
